@@ -145,6 +145,10 @@ def dict_from_model(m, rng=None, native=True):
             d[key] = list(v) if f.endswith("cardinality") else scalar(v)
         d["properties"] = [prop(p) for p in s.get("properties", [])]
         d["sections"] = [sec(c) for c in s.get("sections", [])]
+        # an empty child list may just as well be left out (hand-written files do that)
+        for key in ("properties", "sections"):
+            if not d[key] and rng is not None and rng.random() < 0.5:
+                del d[key]
         return shuffle(d)
 
     doc = {}
